@@ -101,7 +101,7 @@ class C07(PropCheck):
               'From Elfi Require Import Base.Harness Sched.Sched Sched.Reject Sched.Smc.\nImport ListNotations.\n')
     case_type = 'Smc.case'
     preds = (('Smc.agree', 'agree'), ('Smc.ok', 'ok'))
-    chunk = 10
+    chunk = 15
     case_timeout = 90
     build_targets = ('Sched/Smc.vo',)
     rule = ('real SMC.sample on small models: the unit-scale model (bounded uniform prior, optionally a normal child) and models with a '
@@ -247,8 +247,8 @@ class C07(PropCheck):
                 problems.append('population %d has weights that are not finite and non-negative: %r' % (r_i, w[:6].tolist()))
             dens = []
             prior_f = np.exp(lp)
-            # a density that underflows in binary64 is no usable oracle for the quotient in Q
-            prior_q = [(0.0 if not s_ else float(x) if x > 1e-290 else None) for x, s_ in zip(prior_f, support)]
+            # a density that (nearly) underflows in binary64 is no usable oracle for the quotient in Q
+            prior_q = [(0.0 if not s_ else float(x) if x > 1e-60 else None) for x, s_ in zip(prior_f, support)]
             if prev is None:
                 if not np.all(w == 1):
                     problems.append('first population weights are not all 1: %r' % w[:4].tolist())
@@ -263,7 +263,11 @@ class C07(PropCheck):
                         expect = np.exp(lp - logq)
                     if not np.allclose(w, expect, rtol=1e-8, atol=0):
                         problems.append('population %d weights %r differ from prior/mixture density %r' % (r_i, w[:4].tolist(), expect[:4].tolist()))
-                    dens = np.exp(L).tolist()
+                    # oracle table for Coq: components below 1e-20 of the largest one of their row are entered as 0 (their
+                    # total contribution is < 1e-19 relative; exact rationals with 2^-600 denominators are costly)
+                    D = np.exp(L)
+                    D = np.where(D < 1e-20 * np.max(D, axis=1, keepdims=True), 0.0, D)
+                    dens = D.tolist()
                     if not np.all(np.sum(np.exp(L), axis=1) > 1e-290):
                         prior_q = [None] * len(prior_q)
                 else:
